@@ -3079,6 +3079,10 @@ class QuicConnection:
             builder.start_packet(packet_type, crypto)
 
             if self._handshake_complete:
+                # ACK
+                if space.ack_at is not None and space.ack_at <= now:
+                    self._write_ack_frame(builder=builder, space=space, now=now)
+
                 # PATH CHALLENGE
                 if not (network_path.is_validated or network_path.local_challenge_sent):
                     challenge = os.urandom(8)
@@ -3089,10 +3093,6 @@ class QuicConnection:
                         challenge=challenge, network_path=network_path
                     )
                     network_path.local_challenge_sent = True
-
-                # ACK
-                if space.ack_at is not None and space.ack_at <= now:
-                    self._write_ack_frame(builder=builder, space=space, now=now)
 
                 # HANDSHAKE_DONE
                 if self._handshake_done_pending:
